@@ -50,7 +50,7 @@ def run(res, tier, seed, replay):
         recs = ss.corpus_recs("C03", dump=True, render=True)
         streams = [("conflict", 255, "sync", "debug", 1200 * k), ("dense", 255, "sync", "debug", 800 * k),
                    ("small", 255, "sync", "debug", 800 * k), ("conflict", 127, "yield", "debug", 300 * k),
-                   ("conflict", 255, "sync", "release", 500 * k)]
+                   ("conflict", 255, "sync", "release", 500 * k), ("conflictc", 255, "sync", "debug", 400 * k)]
         r2, hangs = ss.run_streams(streams, seed + 43, dump=True, render=True)
         recs += r2
     lines = []
